@@ -187,7 +187,7 @@ def widen(I, st, old, cid, disabled, checks):
                 continue
             st.add_ge0(mk(L))
             checks.append((cc, lambda sb, vb, mk=mk: isinstance(vb, VVec) and sb.entails(mk(vb.len))))
-        return VVec(old.kind, L, cap, key)
+        return VVec(old.kind, L, cap, key, old.elems)
     if isinstance(old, VAdt):
         c = cid + ("variant",)
         if old.variant is not None and old.fields is not None and c not in disabled:
